@@ -19,6 +19,8 @@ RULE = (
     "returned tile nearest to the point in angular distance, for |lat| <= 89 deg. Point generators: uniform on the sphere, polar caps, "
     "structure points (tile corners, edge midpoints, pixel centres, equator diamond, lon in {0,pi/2,pi,3pi/2,2pi}, poles), each also shifted "
     "by multiples of 2*pi. Non-trivial: a point checked at depth >= 2; distinct by (cs, point)."
+    ' Also: 60-step tracks at one depth (steps of 0.05-0.4 tile widths), back-to-back pixel lookups of positions nanoradians apart at d'
+    'epths 12-24, lookups from four concurrent threads.'
 )
 ASSUMPTIONS = ["reference TOAST subdivision follows the documentation", "compiled extension as built; .pyx coherent with .c"]
 
